@@ -146,7 +146,7 @@ impl TypeResolver {
     fn extract_vec_inner_type(&self, rust_type: &str) -> Option<String> {
         if rust_type.starts_with("Vec<") && rust_type.ends_with('>') {
             let inner = &rust_type[4..rust_type.len() - 1];
-            Some(inner.to_string())
+            Some(Self::first_type_argument(inner))
         } else {
             None
         }
@@ -176,7 +176,7 @@ impl TypeResolver {
     fn extract_hashset_inner_type(&self, rust_type: &str) -> Option<String> {
         if rust_type.starts_with("HashSet<") && rust_type.ends_with('>') {
             let inner = &rust_type[8..rust_type.len() - 1];
-            Some(inner.to_string())
+            Some(Self::first_type_argument(inner))
         } else {
             None
         }
@@ -186,7 +186,7 @@ impl TypeResolver {
     fn extract_btreeset_inner_type(&self, rust_type: &str) -> Option<String> {
         if rust_type.starts_with("BTreeSet<") && rust_type.ends_with('>') {
             let inner = &rust_type[9..rust_type.len() - 1];
-            Some(inner.to_string())
+            Some(Self::first_type_argument(inner))
         } else {
             None
         }
@@ -218,10 +218,21 @@ impl TypeResolver {
 
     /// Parse two type parameters separated by comma (for HashMap, BTreeMap)
     fn parse_two_type_params(&self, inner: &str) -> Option<(String, String)> {
-        let pos = find_top_level_comma(inner)?;
-        let key_type = inner[..pos].trim().to_string();
-        let value_type = inner[pos + 1..].trim().to_string();
+        // a third argument (the hasher of HashMap<K, V, S>) is no part of the serialised shape
+        let mut arguments = split_top_level_types(inner).into_iter();
+        let key_type = arguments.next()?.to_string();
+        let value_type = arguments.next()?.to_string();
         Some((key_type, value_type))
+    }
+
+    /// The first type argument of a one-parameter container; a hasher or allocator argument
+    /// after it (HashSet<T, S>, Vec<T, A>) is no part of the serialised shape
+    fn first_type_argument(inner: &str) -> String {
+        split_top_level_types(inner)
+            .into_iter()
+            .next()
+            .unwrap_or(inner)
+            .to_string()
     }
 
     /// Get the type mappings
